@@ -107,6 +107,60 @@ class ThreeWayDomain(DefaultDomain):
         return ("raised", norm(stmt.exc)[:40])
 
 
+class ExtractDomain(ThreeWayDomain):
+    """extract_result under each Deferred state; capture lists hold zero or one captured value."""
+
+    def __init__(self, env):
+        super().__init__(None, None, (), env)
+
+    def call(self, interp, call, st, fr):
+        d = dotted(call.func) or ""
+        if d.split(".")[-1] in ("addCallbacks", "addCallback", "addErrback", "addBoth") and d.split(".")[0] == "deferred":
+            sv, fv = ENVS[self.env][2]
+            names = [dotted(a.value) if isinstance(a, ast.Attribute) and a.attr == "append" else None for a in call.args]
+            m = d.split(".")[-1]
+            succ_name = names[0] if m in ("addCallbacks", "addCallback", "addBoth") and names else None
+            fail_name = names[1] if m == "addCallbacks" and len(names) > 1 else (names[0] if m in ("addErrback", "addBoth") and names else None)
+            if succ_name and sv == NONEMPTY:
+                st = st.set(fr.local(succ_name), ("list1", ("the-result",)))
+            if fail_name and fv == NONEMPTY:
+                st = st.set(fr.local(fail_name), ("list1", ("the-failure",)))
+            return [val(("deferred",), st)]
+        if d == "len" and len(call.args) == 1:
+            out = []
+            for r in interp.eval(call.args[0], st, fr):
+                if r.kind == "exc":
+                    out.append(r)
+                elif r.value == EMPTY:
+                    out.append(val(("const", 0), r.state))
+                elif isinstance(r.value, tuple) and r.value[:1] == ("list1",):
+                    out.append(val(("const", 1), r.state))
+                else:
+                    out.append(val(TOP, r.state))
+            return out
+        if isinstance(call.func, ast.Attribute) and call.func.attr == "raiseException":
+            out = []
+            for r in interp.eval(call.func.value, st, fr):
+                out.append(r if r.kind == "exc" else exc(("failure-raised", r.value), r.state))
+            return out
+        if d == "DeferredNotFired":
+            return [val(("not-fired",), st)]
+        return super().call(interp, call, st, fr)
+
+    def truth(self, value):
+        if isinstance(value, tuple) and value[:1] == ("list1",):
+            return "T"
+        return super().truth(value)
+
+    def subscript(self, base, idx, st, fr):
+        if isinstance(base, tuple) and base[:1] == ("list1",) and idx == ("const", 0):
+            return base[1]
+        return None
+
+    def raised_value(self, stmt, value, st, fr):
+        return value if isinstance(value, tuple) else ("raised", norm(stmt.exc)[:40])
+
+
 def first_param_returned(func):
     """Does func return its first parameter on every path?"""
     if isinstance(func, ast.Lambda):
@@ -301,18 +355,21 @@ def run(ctx):
     ctx.check("R-SYNC-RUNNER", "_run_user: maybeDeferred(function, *args[, **kwargs]) -> addErrback(_got_user_failure) -> extract_result", ru, ok,
               f"SynchronousDeferredRunTest._run_user is {stmts}", construct=f"{TWRUNTEST}:SynchronousDeferredRunTest._run_user::shape")
     er = module_function(ctx, DEF, "extract_result")
-    chain = [s for s in er.body if isinstance(s, ast.If)]
-    ok = False
-    if len(chain) == 1:
-        a = chain[0]
-        b = a.orelse[0] if len(a.orelse) == 1 and isinstance(a.orelse[0], ast.If) else None
-        ok = (norm(a.test) == "len(failures) == 1" and any("raiseException()" in norm(s) for s in a.body) and b is not None and norm(b.test) == "len(successes) == 1"
-              and isinstance(b.body[0], ast.Return) and norm(b.body[0].value) == "successes[0]" and any(isinstance(s, ast.Raise) and "DeferredNotFired" in norm(s) for s in b.orelse))
-    ctx.check("R-SYNC-RUNNER", "extract_result: failure -> raise it, success -> return it, neither -> DeferredNotFired", er, ok,
-              "extract_result is no longer the documented three-way decision on its two capture lists", construct=f"{DEF}:extract_result::three-way")
-    att = [c for c in walk_shallow(er, include_self=False) if isinstance(c, ast.Call) and dotted(c.func) == "deferred.addCallbacks"]
-    ok = len(att) == 1 and [norm(a) for a in att[0].args] == ["successes.append", "failures.append"]
-    ctx.check("R-SYNC-RUNNER", "extract_result captures success and failure in separate lists", er, ok, "capture wiring changed", construct=f"{DEF}:extract_result::capture")
+    ctx.analysed(er)
+    want_er = {"not fired": ("exc", ("not-fired",)), "fired, chain paused or waiting on a nested Deferred": ("exc", ("not-fired",)),
+               "result available": ("val", ("the-result",)), "failure available": ("exc", ("failure-raised", ("the-failure",)))}
+    for env, want_o in want_er.items():
+        dom = ExtractDomain(env)
+        it = Interp(dom, max_depth=2)
+        res = it.analyze(er, {}, State(), receiver=None, name="extract_result")
+        ctx.stats["states"] += it.steps
+        outs = {(r.kind, r.value) for r in res}
+        human = {"not-fired": "raise DeferredNotFired", "the-result": "return the result", "failure-raised": "raise the failure"}
+        expect = human[want_o[1][0]]
+        ctx.check("R-SYNC-RUNNER", f"extract_result, Deferred {env} -> {expect}", er, outs == {want_o},
+                  f"with a Deferred that has {env}, extract_result does {sorted(map(repr, outs))} (expected: {expect}): a test returning such a Deferred is "
+                  "reported from a value that is not its result",
+                  construct=f"{DEF}:extract_result::{env}")
     guf = own_method(ctx, TWRUNTEST, "_DeferredRunTest", "_got_user_failure")
     ok = any(isinstance(c, ast.Call) and dotted(c.func) == "self._got_user_exception" and "failure.type" in norm(c) and "failure.value" in norm(c) and "getTracebackObject()" in norm(c)
              and dotted(kw_value(c, "tb_label")) == "tb_label" for c in ast.walk(guf)) and any(isinstance(r, ast.Return) for r in ast.walk(guf))
